@@ -168,6 +168,14 @@ def runHelperF (name params streams : String) : String :=
     | "Pow2" => one (Stream.mapM (fun x => x * x) a)
     | "PowInv" => one (Stream.mapM (fun x => 1.0 / x) a)
     | "RoundDigits0" => one (Stream.mapM (fun x => Float.round (x * 1.0) / 1.0) a)
+    | "CountF" =>
+        let from0 : Float := Float.ofNat (p 0) / 10.0
+        let from1 : Float := if p 1 == 1 then -from0 else from0
+        one ((a.foldl (fun (st : Float × List Float) _ => (st.1 + 1.0, st.1 :: st.2)) (from1, [])).2.reverse)
+    | "KeepPositivesF" => one (Stream.mapM (fun x => if x > 0.0 then x else 0.0) a)
+    | "KeepNegativesF" => one (Stream.mapM (fun x => if x < 0.0 then x else 0.0) a)
+    | "AbsF" => one (Stream.mapM (fun x => if x < 0.0 then -x else if x == 0.0 then 0.0 else x) a)
+    | "SignF" => one (Stream.mapM (fun x => if x > 0.0 then 1.0 else if x < 0.0 then -1.0 else 0.0) a)
     | _ => "ERR unknown-helper"
   | _, _ => "ERR parse"
 
